@@ -488,6 +488,74 @@ def check_7z_bytes():
     return None
 
 
+TRICKY_UNITS = ("a", "\u00e9", "\u00ff", "\u0100", "\u0200", "\u4e00", "\u2200", "\uff00", "\U0001f600", "\u0301")
+
+
+def files_info_bytes(names, empty_streams, empty_files, extra_props=(), order=("es", "ef", "names", "attrs")):
+    """FilesInfo section (7zFormat.txt) after the 0x05 marker: NumFiles, then properties (id, size, data) ..., 0x00"""
+    n = len(names)
+    props = {}
+    if any(empty_streams):
+        props["es"] = (0x0E, bitvec(empty_streams))
+        ef = [f for f, e in zip(empty_files, empty_streams) if e]
+        if any(ef):
+            props["ef"] = (0x0F, bitvec(ef))
+    props["names"] = (0x11, b"\x00" + b"".join(x.encode("utf-16-le") + b"\x00\x00" for x in names))
+    props["attrs"] = (0x15, b"\x01\x00" + b"".join(struct.pack("<I", 0x10 if (e and not f) else 0x20) for e, f in zip(empty_streams, empty_files)))
+    out = number(n)
+    for key in order:
+        if key in props:
+            pid, body = props[key]
+            out += bytes([pid]) + number(len(body)) + body
+        for pid, body in extra_props:
+            if key == "names":                          # unknown / skipped properties between the known ones (kDummy, times)
+                out += bytes([pid]) + number(len(body)) + body
+    return out + b"\x00"
+
+
+def check_files_info():
+    """SevenZipReader._parse_files_info against the FilesInfo grammar: the vectors handed to _build_file_list are the header's
+    (names decoded as NUL-terminated UTF-16-LE strings -- every pair of interesting code units --, EmptyStream / EmptyFile bits for
+    up to 20 entries, properties in any order, unknown properties skipped by their size)"""
+    import itertools as _it
+    cases = []
+    for a, b in _it.product(TRICKY_UNITS, repeat=2):
+        cases.append(([f"{a}{b}.txt", f"x{b}{a}", "plain.md"], [False, False, False], [False, False, False], (), ("es", "ef", "names", "attrs")))
+    for n in (1, 7, 8, 9, 16, 17, 20):
+        es = [(i * 5 + n) % 3 == 0 for i in range(n)]
+        ef = [e and (i % 2 == 0) for i, e in enumerate(es)]
+        names = [f"d{i}/n\u0100{i}.txt" for i in range(n)]
+        cases.append((names, es, ef, (), ("es", "ef", "names", "attrs")))
+        cases.append((names, es, ef, ((0x19, b"\x00" * 3), (0x14, b"\x01\x00" + b"\x11" * 8 * n)), ("names", "es", "ef", "attrs")))
+    for names, es, ef, extra, order in cases:
+        data = files_info_bytes(names, es, ef, extra, order)
+        r = reader_on(data + b"\xEE\xEE")
+        got = {}
+        r._build_file_list = lambda *a, **k: got.update(args=a, kw=k)          # capture what the parser hands over
+        try:
+            r._parse_files_info()
+            vals = list(got.get("args", ())) + list(got.get("kw", {}).values())
+            seen_names = next((list(v) for v in vals if isinstance(v, list) and v and all(isinstance(x, str) for x in v)), None if names else [])
+            bools = [list(v) for v in vals if isinstance(v, list) and all(isinstance(x, bool) for x in v) and len(v) == len(names)]
+            obs = None
+            if vals[:1] != [len(names)]:
+                obs = f"num_files = {vals[:1]}"
+            elif seen_names != names:
+                obs = f"names = {seen_names!r}"
+            elif es not in bools or (any(ef) and ef not in bools):
+                obs = f"EmptyStream / EmptyFile vectors = {bools}"
+            elif r._stream.tell() != len(data):
+                obs = f"section ends at {len(data)}, parser stopped at {r._stream.tell()}"
+        except Exception as e:  # noqa
+            obs = f"{type(e).__name__}: {e}"
+        if obs:
+            return {"target": "sevenzip.py::SevenZipReader._parse_files_info", "inputs": {"section_hex": data.hex() if len(data) < 600 else f"{len(data)} bytes",
+                                                                                       "names": names, "empty_streams": es, "empty_files": ef},
+                    "expected": "num_files, names, EmptyStream and EmptyFile vectors of the section are handed to _build_file_list; position after the END marker",
+                    "observed": obs}
+    return None
+
+
 def check_7z_large_solid():
     """a solid LZMA2 folder larger than common window sizes, written with a 32 MiB dictionary (7-Zip: 16 MiB at -mx=5, 64 MiB at -mx=9),
     whose last member repeats the beginning of the first one (a match reaching back > 8 MiB): every member's own bytes come out"""
@@ -578,7 +646,7 @@ def find(req):
         return r
     ob = req.get("obligation", "") or ""
     checks = []
-    ALL = [check_read_number, check_bool_vector, check_bool_vector_defined, check_pack_info, check_detect, check_7z_bytes,
+    ALL = [check_read_number, check_bool_vector, check_bool_vector_defined, check_pack_info, check_files_info, check_detect, check_7z_bytes,
            check_tar_member_read_failure, matrix, check_7z_large_solid]
     if "native-scope" in ob:
         checks = ALL
@@ -586,6 +654,10 @@ def find(req):
         checks = [check_read_number]
     elif "_read_boolean_vector" in ob:
         checks = [check_bool_vector, check_bool_vector_defined]
+    elif "_parse_files_info" in ob:
+        checks = [check_files_info, check_7z_bytes, lambda: matrix(lambda l: l.startswith("7z"))]
+    elif "_decompress_lzma" in ob or "_apply_decoder" in ob:
+        checks = [check_7z_bytes, check_7z_large_solid, lambda: matrix(lambda l: l.startswith("7z"))]
     elif "_parse_pack_info" in ob:
         checks = [check_pack_info, check_7z_bytes, lambda: matrix(lambda l: l.startswith("7z"))]
     elif "extractall" in ob or "_decompress_folder" in ob:
